@@ -6,7 +6,7 @@
    from the handlers, which no longer run) -- and at that instant every source
    subscription and timer is released. *)
 From RxVerif Require Import Base.Prelude Ops.Machine Ops.MachineFacts Ops.Multi Ops.MultiFacts
-  Ops.ReleaseFacts.
+  Ops.ReleaseFacts Ops.RunTailFacts Ops.Combinators.
 
 Theorem C03_silent_and_released_after_dispose :
   forall A B (m : machine A B) ins1 ins2 now s r k, rinv r ->
@@ -29,3 +29,20 @@ Proof.
   destruct (run_from_after_dispose m ins1 ins2 now s r k H) as [_ R]. now rewrite R.
 Qed.
 Print Assumptions C03_trace_balanced_after_dispose.
+
+(* the same for whole runs, from subscription: the start state of every machine
+   satisfies the invariant [rinv] *)
+Theorem C03_run_disposed : forall A B (m : machine A B) ins1 ins2 now,
+  fst (run m (ins1 ++ (now, IDispose) :: ins2)) = fst (run m (ins1 ++ [(now, IDispose)]))
+  /\ released (snd (run m (ins1 ++ (now, IDispose) :: ins2))).
+Proof. exact @run_after_dispose. Qed.
+Print Assumptions C03_run_disposed.
+
+(* witness: merge of two sources disposed while both are live -- both are
+   unsubscribed in the dispose step and the later element adds nothing *)
+Example C03_witness_dispose_mid_run :
+  run (@x_merge Z 2) ([(0, ISrc 0%nat (Next 5))] ++ (1, IDispose) :: [(2, ISrc 1%nat (Next 4))])
+  = ([(0%nat, OSub 0%nat); (0%nat, OSub 1%nat); (1%nat, OEmit (Next 5));
+      (2%nat, OUnsub 0%nat); (2%nat, OUnsub 1%nat)],
+     RState [] [] true).
+Proof. vm_compute. reflexivity. Qed.
